@@ -217,9 +217,18 @@ def types_for(tier):
     return ("d", "d", "f", "l") if tier == "thorough" else ("d", "d", "d", "f", "l")
 
 
+# fixed descriptors on which the unchanged tree is known to violate C02 / C07 (near-breakdown handling with absolute thresholds)
+FIXED_BREAKDOWN = {
+    "C02": ["cls=gen;ty=d;n=11;nev=1;ncv=8;seed=764675;hist=N,V1,C0;sv1=rnd;args0=1:20:-10:5;meas=1;ref=0;lgs=0;fam=lowrank;rank=1"],
+    "C07": ["cls=gen;ty=l;n=20;nev=1;ncv=8;seed=733566;hist=N,V1,C0;sv1=rnd;args0=0:20:-6:1;meas=2;ref=0;lgs=0;fam=lowrank;rank=1",
+            "cls=sym;ty=f;n=15;nev=1;ncv=9;seed=719364;hist=N,V1,C0;sv1=e1;args0=3:20:-3:7;meas=2;ref=0;lgs=-20;fam=diag;spec=lin"],
+}
+
+
 def check_C01(tier, seed, t0):
     rng = random.Random(2000 + seed)
     descs = P.herm_basic(rng, n_of(tier, 120, 2500), types=types_for(tier), meas=1, nmax=n_of(tier, 40, 120))
+    descs += P.breakdown_descs(rng, n_of(tier, 24, 300), types=types_for(tier), gen=False, meas=1)
     models = [("MC_IR.tla", "IR_quick.cfg" if tier == "quick" else "IR_design.cfg", 8)]
     return ir_flow("C01", tier, seed, descs, HERM_NUM, models, COMMON_ASSUME, t0, neg_models=IR_NEG)
 
@@ -227,6 +236,8 @@ def check_C01(tier, seed, t0):
 def check_C02(tier, seed, t0):
     rng = random.Random(3000 + seed)
     descs = P.gen_basic(rng, n_of(tier, 120, 2500), types=types_for(tier), meas=1, nmax=n_of(tier, 36, 100))
+    descs += P.breakdown_descs(rng, n_of(tier, 24, 300), types=types_for(tier), gen=True, meas=1)
+    descs += FIXED_BREAKDOWN["C02"]
     models = [("MC_IR.tla", "IR_quick.cfg" if tier == "quick" else "IR_design.cfg", 8)]
     return ir_flow("C02", tier, seed, descs, GEN_NUM, models, COMMON_ASSUME, t0, neg_models=IR_NEG)
 
@@ -262,6 +273,9 @@ def check_C07(tier, seed, t0):
     rng = random.Random(4000 + seed)
     descs = P.herm_basic(rng, n_of(tier, 60, 800), types=types_for(tier), meas=2, nmax=n_of(tier, 36, 90))
     descs += P.gen_basic(rng, n_of(tier, 60, 800), types=types_for(tier), meas=2, nmax=n_of(tier, 32, 80), ref=0)
+    descs += P.breakdown_descs(rng, n_of(tier, 40, 400), types=types_for(tier))
+    descs += P.geig_basic(rng, n_of(tier, 30, 300), types=("d",), meas=2, lgcs=(2, 6))
+    descs += FIXED_BREAKDOWN["C07"]
     models = [("MC_IR.tla", "IR_quick.cfg" if tier == "quick" else "IR_design.cfg", 8)]
     return ir_flow("C07", tier, seed, descs, KRY, models, COMMON_ASSUME, t0)
 
